@@ -5,7 +5,9 @@
 (* set of parameter declarations [name, shape]; a conversion path is one   *)
 (* of  "df" (to_dataframe / from_dataframe), "pt" (to_pytorch /            *)
 (* from_pytorch), "csv", "json" (save / load).                             *)
-(* Shapes: "scalar" (), "len1" (1,), "len2" (2,).                          *)
+(* Shapes: "scalar" (), "len1" (1,), "len2" (2,), "len12" (12,): more than  *)
+(* ten components, so that text order and numeric order of the columns     *)
+(* of the table form differ.                                               *)
 (* Named deviations of the implementation from the lossless design:        *)
 (*   ScalarOK     FALSE as built: scalar-valued parameters cannot go       *)
 (*                through the table form (IndexError) and become length-1  *)
